@@ -1630,6 +1630,23 @@ class TableLeafCell(BTreeCell):
             self.last_overflow_page_content_size = overflow_page.content_length
 
             while overflow_page.next_overflow_page_number:
+                if overflow_page.next_overflow_page_number in self.overflow_pages:
+                    # A chain that returns to one of its own pages would otherwise be followed until the
+                    # (possibly damaged, astronomically large) payload size is used up
+                    log_message = (
+                        "The overflow chain loops back to overflow page: {} for b-tree cell index: {} at "
+                        "offset: {} for page: {} in page version: {} for version: {}."
+                    )
+                    log_message = log_message.format(
+                        overflow_page.next_overflow_page_number,
+                        self.index,
+                        self.start_offset,
+                        self.page_number,
+                        self.page_version_number,
+                        self.version_number,
+                    )
+                    self._logger.error(log_message)
+                    raise CellParsingError(log_message)
                 payload_remaining = (
                     payload_remaining - overflow_page.size + OVERFLOW_HEADER_LENGTH
                 )
@@ -1982,6 +1999,23 @@ class IndexInteriorCell(BTreeCell):
             self.last_overflow_page_content_size = overflow_page.content_length
 
             while overflow_page.next_overflow_page_number:
+                if overflow_page.next_overflow_page_number in self.overflow_pages:
+                    # A chain that returns to one of its own pages would otherwise be followed until the
+                    # (possibly damaged, astronomically large) payload size is used up
+                    log_message = (
+                        "The overflow chain loops back to overflow page: {} for b-tree cell index: {} at "
+                        "offset: {} for page: {} in page version: {} for version: {}."
+                    )
+                    log_message = log_message.format(
+                        overflow_page.next_overflow_page_number,
+                        self.index,
+                        self.start_offset,
+                        self.page_number,
+                        self.page_version_number,
+                        self.version_number,
+                    )
+                    self._logger.error(log_message)
+                    raise CellParsingError(log_message)
                 payload_remaining = (
                     payload_remaining - overflow_page.size + OVERFLOW_HEADER_LENGTH
                 )
@@ -2377,6 +2411,23 @@ class IndexLeafCell(BTreeCell):
             self.last_overflow_page_content_size = overflow_page.content_length
 
             while overflow_page.next_overflow_page_number:
+                if overflow_page.next_overflow_page_number in self.overflow_pages:
+                    # A chain that returns to one of its own pages would otherwise be followed until the
+                    # (possibly damaged, astronomically large) payload size is used up
+                    log_message = (
+                        "The overflow chain loops back to overflow page: {} for b-tree cell index: {} at "
+                        "offset: {} for page: {} in page version: {} for version: {}."
+                    )
+                    log_message = log_message.format(
+                        overflow_page.next_overflow_page_number,
+                        self.index,
+                        self.start_offset,
+                        self.page_number,
+                        self.page_version_number,
+                        self.version_number,
+                    )
+                    self._logger.error(log_message)
+                    raise CellParsingError(log_message)
                 payload_remaining = (
                     payload_remaining - overflow_page.size + OVERFLOW_HEADER_LENGTH
                 )
